@@ -19,6 +19,8 @@ type c12Case struct {
 	N        int  `json:"n"`
 	W        int  `json:"w"`
 	SemiSync bool `json:"semi_sync"`
+	// Seq: calls [kind, n] made one after the other on ONE helper
+	Seq [][2]int `json:"call_sequence_on_one_helper,omitempty"`
 }
 
 func init() { verifChecks["C12"] = checkC12 }
@@ -100,9 +102,39 @@ func c12Run(r *vt.Run, c c12Case, subsetN int) {
 	}
 }
 
+// c12Seq: a sequence of calls on ONE helper; every answer must be the one a fresh helper gives.
+func c12Seq(r *vt.Run, c c12Case) {
+	cfg := &config.Config{RplSemiSyncMasterWaitForSlaveCount: c.W, SemiSync: c.SemiSync}
+	answer := func(sh ISwitchHelper, o [2]int) string {
+		l := c12List(o[1])
+		q := max(o[1]-min(o[1]/2, c.W), 1)
+		switch o[0] {
+		case 0:
+			return fmt.Sprint(sh.GetRequiredWaitSlaveCount(l))
+		case 1:
+			return fmt.Sprint(sh.GetFailoverQuorum(l))
+		case 2:
+			return fmt.Sprint(sh.CheckFailoverQuorum(l, q-1) != nil)
+		}
+		return fmt.Sprint(sh.CheckFailoverQuorum(l, q) != nil)
+	}
+	sh := NewSwitchHelper(cfg)
+	for k, o := range c.Seq {
+		want := answer(NewSwitchHelper(cfg), o)
+		if got := answer(sh, o); got != want {
+			r.Violate("C12/7-answers-do-not-depend-on-earlier-calls", fmt.Sprintf("w=%d semisync=%v: call %d of the sequence %v ([kind n]; kinds: 0 required, 1 quorum, 2 check(quorum-1) fails, 3 check(quorum) fails) on one helper answered %s, a fresh helper answers %s",
+				c.W, c.SemiSync, k, c.Seq, got, want), c)
+		}
+	}
+}
+
 func checkC12(r *vt.Run) {
 	var rc c12Case
 	if r.ReplayInto(&rc) {
+		if len(rc.Seq) > 0 {
+			c12Seq(r, rc)
+			return
+		}
 		c12Run(r, rc, 12)
 		return
 	}
@@ -121,7 +153,7 @@ func checkC12(r *vt.Run) {
 				if !r.Mine(i) {
 					continue
 				}
-				c := c12Case{n, w, ss}
+				c := c12Case{N: n, W: w, SemiSync: ss}
 				if n == 5 && w == 2 && ss {
 					r.Sample(c)
 				}
@@ -129,5 +161,33 @@ func checkC12(r *vt.Run) {
 			}
 		}
 	}
-	r.Sample(c12Case{3, 1, true})
+	r.Sample(c12Case{N: 3, W: 1, SemiSync: true})
+	// the daemon keeps ONE helper for its lifetime and asks it about different lists over time: every
+	// sequence of up to 3 calls of {required(n), quorum(n), check(n, quorum-1), check(n, quorum)} over
+	// n = 0..8 on one helper must give the answers a fresh helper gives
+	var ops [][2]int
+	for n := 0; n <= 8; n++ {
+		for k := 0; k < 4; k++ {
+			ops = append(ops, [2]int{k, n})
+		}
+	}
+	seqs := 0
+	for w := 0; w <= 4; w++ {
+		for _, ss := range []bool{true, false} {
+			for a := range ops {
+				i++
+				if !r.Mine(i) {
+					continue
+				}
+				for b := range ops {
+					for c := range ops {
+						c12Seq(r, c12Case{N: ops[c][1], W: w, SemiSync: ss, Seq: [][2]int{ops[a], ops[b], ops[c]}})
+						seqs++
+					}
+				}
+			}
+		}
+	}
+	r.Add("call_sequences_on_one_helper", seqs)
+	r.Bound("call_sequence_length", 3)
 }
